@@ -71,6 +71,11 @@ def strategy(shard):
         size = None
         if shard.get("big") and ballots:
             size = draw(st.sampled_from([4097, 5000, 8193, 10001, 10500, 12345, 20001, 32769, 40000])) + draw(st.integers(0, 40))
+            if kind == "plurality" and draw(st.integers(0, 2)) == 0:
+                # a photo finish: one vote between the first winner and the first loser among 120001 cards (the mean is
+                # within 5e-6 of 1/2 without being 1/2)
+                first_loser = next(c for c in cands if c not in winners)
+                ballots, aux, size = [{winners[0]: True}, {first_loser: True}], None, 120001
         return {"kind": kind, "cands": cands, "winners": winners, "f": f, "ballots": ballots, "aux": aux, "size": size,
                 # what the records are called is nobody's business in a tally: unnamed records, or all under one default name
                 "ids": draw(st.sampled_from(["unique", "unique", "unique", "none", "same"]))}
